@@ -128,7 +128,9 @@ def gen_case(rng, c, tag):
                 sleep[s["name"]] = {str(b): rng.randint(1, 20) for b in range(bars) if rng.random() < 0.4}
             elif pattern == "long":
                 sleep[s["name"]] = {str(rng.randrange(bars)): rng.randint(80, 250)}
-        runs.append({"threads": t, "order": order, "sleep": sleep})
+        # half of the sequential runs are preceded, in the same process and over the same StrategyConfig object, by a manager
+        # that holds a single strategy (a trial run before the batch): what that run leaves behind belongs to it alone
+        runs.append({"threads": t, "order": order, "sleep": sleep, "primer": t == 1 and rng.random() < 0.5})
     return {"world": world, "strategies": strategies, "hashseed": hashseed, "runs": runs, "plain": rng.random() < 0.5}
 
 
@@ -548,6 +550,17 @@ def worker_main(jobfile):
         return
     strategies = [mk(job["strategies"][i], job["sleep"].get(job["strategies"][i]["name"], {})) for i in job["order"]]
     info = {"pid": os.getpid(), "error": None}
+    if job.get("primer"):
+        pdir = os.path.join(out, "_primer")
+        os.makedirs(pdir, exist_ok=True)
+        ps = dict(job["strategies"][job["order"][0]])
+        ps["out"], ps["sleep"], ps["name"] = pdir, {}, "primer"
+        if ps["kind"] == "crasher":
+            ps["kind"] = "multi"
+        try:
+            BacktestManager(config, data, [PlanStrategy(ps)], bk, threads=1).run()
+        except BaseException as e:  # noqa  the trial run's own trouble is not this run's
+            info["primer_error"] = f"{type(e).__name__}: {str(e)[:200]}"
     try:
         BacktestManager(config, data, strategies, bk, threads=job["threads"]).run()
     except BaseException as e:  # noqa
@@ -560,7 +573,7 @@ def worker_main(jobfile):
 def _spawn(case, mode, out, run=None):
     job = {"mode": mode, "world": case["world"], "strategies": case["strategies"], "out": out}
     if run is not None:
-        job.update({"threads": run["threads"], "order": run["order"], "sleep": run["sleep"]})
+        job.update({"threads": run["threads"], "order": run["order"], "sleep": run["sleep"], "primer": bool(run.get("primer"))})
     jobfile = os.path.join(out, "_job.json")
     with open(jobfile, "w") as fh:
         json.dump(job, fh)
